@@ -221,12 +221,12 @@ Outcome RunC10(RunCtx& ctx)
 	{
 		ForEachNode(doc, [&](DynNode& n)
 		{
-			if (n.kind == K::Obj && !n.items.empty()) BuildProgram(s, sim::L_PROG, n, orderStyle == 1 ? ProgStyle::Reverse : ProgStyle::Shuffle, archive);
+			if (n.kind == K::Obj && !n.items.empty()) BuildProgram(s, sim::L_PROG, n, orderStyle == 1 ? ProgStyle::Reverse : orderStyle == 2 ? ProgStyle::Shuffle : ProgStyle::Full, archive);
 		});
 	}
 	else if (orderStyle != 0 && archive == A_CSV)
 	{
-		for (auto& row : doc.items) BuildProgram(s, sim::L_PROG, row, orderStyle == 1 ? ProgStyle::Reverse : ProgStyle::Shuffle, archive);
+		for (auto& row : doc.items) BuildProgram(s, sim::L_PROG, row, orderStyle == 1 ? ProgStyle::Reverse : orderStyle == 2 ? ProgStyle::Shuffle : ProgStyle::Full, archive);
 	}
 
 	// validation runs (1 in 4): the reading program additionally expects Required() members the document does not have, at any
